@@ -211,6 +211,31 @@ fn run(case: &Case, cx: &mut Cx) -> CaseResult {
             } else {
                 target.replace("@S@", &s_abs)
             };
+            // If the link leads to a sentinel directory, give that directory the same
+            // sub-directory layout as the directory it replaces (as two releases of one
+            // program have): entries deeper below the replaced directory then find their
+            // parents on the far side of the link.
+            {
+                let dest = s.join("r").join("dest");
+                let link_parent = dest.join(&tree::parent_of(&d).unwrap()[1..]);
+                let mut resolved = std::path::PathBuf::new();
+                for c in link_parent.join(&target).components() {
+                    match c {
+                        std::path::Component::ParentDir => {
+                            resolved.pop();
+                        }
+                        std::path::Component::CurDir => {}
+                        other => resolved.push(other),
+                    }
+                }
+                if resolved.starts_with(&s) && !resolved.starts_with(&dest) && resolved != s && resolved.is_dir() {
+                    for (p, n) in &t0.0 {
+                        if n.is_dir() && p != &d && tree::under(&d, p) {
+                            let _ = std::fs::create_dir_all(resolved.join(&p[d.len() + 1..]));
+                        }
+                    }
+                }
+            }
             t1.0.insert(d.clone(), Node { kind: Kind::Link { target }, meta });
             tree::rematerialise(&t0, &t1, &src);
             let ctl = Ctl::new(&arch, Plan::FreezeAtMutating { k: *k as usize + 3, torn: false });
@@ -352,7 +377,7 @@ pub fn prop() -> Prop<Case> {
     Prop {
         id: "C16",
         level: "exploration",
-        rule: "case = (options, tree with 1-5 symlinks aimed at sentinel files/directories beside the destination via ../ chains, absolute paths, '..', '/', '.', other names, and other symlinks of the tree (chains); destination absent/empty/pre-populated (with ordinary entries, or with only a lost+found directory); overwrite flag; optional subtree and exclude selection; optionally a later interrupted backup in which a directory was replaced by such a symlink, itself optionally preceded by another interrupted backup in which an entry had been removed (three stitched bands), restored by id; the subtree is a third of the time exactly the replaced directory; in a quarter of the cases one of the first ten storage operations of the restore fails). Second phase when a directory was replaced by a symlink: the oldest version, in which it is a directory again, is restored with overwrite over the first restore, and the outside snapshot is compared again. Oracle: recursive lstat+content snapshot (mode, owner, mtime, ctime, inode) of the whole sandbox outside the destination is identical before and after; a pre-populated destination without overwrite must be refused and left identical. Non-trivial = a restored symlink resolves to a sentinel, or the refusal case with a non-empty version; distinct by case hash",
+        rule: "case = (options, tree with 1-5 symlinks aimed at sentinel files/directories beside the destination via ../ chains, absolute paths, '..', '/', '.', other names, and other symlinks of the tree (chains); destination absent/empty/pre-populated (with ordinary entries, or with only a lost+found directory); overwrite flag; optional subtree and exclude selection; optionally a later interrupted backup in which a directory was replaced by such a symlink, itself optionally preceded by another interrupted backup in which an entry had been removed (three stitched bands), restored by id; when the link leads to a sentinel directory that directory is given the sub-directory layout of the directory it replaces; the subtree is a third of the time exactly the replaced directory; in a quarter of the cases one of the first ten storage operations of the restore fails). Second phase when a directory was replaced by a symlink: the oldest version, in which it is a directory again, is restored with overwrite over the first restore, and the outside snapshot is compared again. Oracle: recursive lstat+content snapshot (mode, owner, mtime, ctime, inode) of the whole sandbox outside the destination is identical before and after; a pre-populated destination without overwrite must be refused and left identical. Non-trivial = a restored symlink resolves to a sentinel, or the refusal case with a non-empty version; distinct by case hash",
         assumptions: &[
             "pre-populated destinations contain only plain files and directories (a hostile destination containing symlinks is outside the statement)",
             "runs as root, so permission errors cannot mask a write-through",
